@@ -483,8 +483,9 @@ class KafkaCodec(object):
             ApiVersionsRequest => [ApiVersionRequest]
                 ApiVersionRequest => ApiKey
         """
-        return cls._encode_message_header(client_id, correlation_id, api_version_request.api_key) + struct.pack(
-            ">i", api_version_request.api_version
+        # An ApiVersions v0 request is a bare header: it has no body.
+        return cls._encode_message_header(
+            client_id, correlation_id, api_version_request.api_key, api_version=api_version_request.api_version
         )
 
     @classmethod
